@@ -1,14 +1,271 @@
-From Coq Require Import QArith.
-From Asynkit Require Import Base.Prelude Queue.PQ Queue.PosPQ Queue.Exec Queue.Threads Queue.ThreadsCorr.
+(* C18 - asynkit event loops keep asyncio's thread-safety contract  (PARTIAL: false for the
+   priority loop on the unchanged code, known finding F13).
+   Final statements; the proofs are in Queue/ThreadsProofs.v, the step-level model in
+   Queue/Threads.v (validated against CPython + asynkit with real second threads).
+
+   Reading guide.  [E] = PriEntry of a PriorityValue; [elt] = PriEntry.__lt__; [ed] a default.
+   [cst] = state of one of heapq's C functions: the array [carr], the comparison budget
+   [cbudget] (None: no other thread exists; Some k: a foreign thread appends the entry [cx]
+   - a complete, atomic heappush [push_atomic] - during comparison number k), and [cerr]
+   (the C code noticed the size change and gave up with RuntimeError).  [start s k x] is
+   the state in which a loop-thread operation on queue [s] begins.  [t_popleft], [t_append],
+   [t_find_remove], [t_reschedule] are the loop thread's PosPriorityQueue operations built on
+   these; their result [tres] is the queue afterwards [tq] and the outcome [tout_]
+   (TOk v | TNone | TRaise).  [pos_*] / [PInv] are the sequential model and invariant of C17. *)
+From Coq Require Import QArith Sorting.Permutation.
+From Asynkit Require Import Base.Prelude Queue.PQ Queue.Heap Queue.HeapqModel Queue.PosPQ Queue.Exec
+  Queue.PosProofs Queue.Threads Queue.ThreadsCorr Queue.ThreadsProofs.
+Local Close Scope Q_scope.
 Open Scope Z_scope.
-(* C18 is false for the priority loop on the unchanged code (known finding F13): a foreign
-   append that strikes inside popleft makes the operation raise AND loses the entry that was
-   being popped. *)
+
+(* ---- 1. without interference the C (swap-based) heapq functions compute exactly the arrays
+   of the hole-based Python transcription HeapqModel that C17 is proved about ---- *)
+Theorem C18_c_sift_equiv :
+  forall (a : list E) (x : E),
+    let s := mkC a None x false in
+    (forall fuel startpos pos, (pos < length a)%nat -> (pos < fuel)%nat ->
+       c_siftdown fuel s startpos pos = mkC (HeapqModel.siftdown elt ed a startpos pos) None x false) /\
+    (forall pos, (pos < length a)%nat ->
+       c_siftup s pos = mkC (HeapqModel.siftup elt ed a pos) None x false) /\
+    (forall e, c_heappush s e = mkC (HeapqModel.heappush elt ed a e) None x false) /\
+    (c_heappop s = match HeapqModel.heappop elt ed a with
+                   | None => (s, None)
+                   | Some (e, a') => (mkC a' None x false, Some e)
+                   end) /\
+    c_heapify s = mkC (HeapqModel.heapify elt ed a) None x false.
+Proof. exact c_sift_equiv. Qed.
+Print Assumptions C18_c_sift_equiv.
+
+(* hence, run alone, they satisfy heapq's contract HeapSpec (Queue/Heap.v): permutation and
+   heap property for push / pop / heapify *)
+Theorem C18_c_heapq_meets_spec :
+  HeapSpec (mkHI pv_lt pv_dflt
+              (fun a e => carr (c_heappush (mkC a None ed false) e))
+              (fun a => match c_heappop (mkC a None ed false) with
+                        | (s, Some e) => Some (e, carr s) | (_, None) => None end)
+              (fun a => carr (c_heapify (mkC a None ed false)))).
+Proof. exact c_heapq_spec. Qed.
+Print Assumptions C18_c_heapq_meets_spec.
+
+(* ---- 2. a foreign append that does not strike inside the operation.
+   If the loop-thread operation does not raise (for popleft: on a non-empty queue; popleft on
+   an empty queue raises IndexError without any comparison) then its result is the SEQUENTIAL
+   composition: the operation of the C17 model Queue/PosPQ.v, then an ordinary append
+   (pos_append_pri) of the foreign object with its priority.  This is what a lock around the
+   queue, or marshalling foreign appends through a deque, would guarantee.
+   [foreign_append s x] is that ordinary append (C18_foreign_append_def). ---- *)
+Theorem C18_foreign_append_def :
+  forall (s : pos) (x : E), foreign_append s x = pos_append_pri HPV s (eobj x) (base (epri x)).
+Proof. exact (fun s x => eq_refl). Qed.
+Print Assumptions C18_foreign_append_def.
+
+Theorem C18_atomic_ok :
+  forall (s : pos) (k : nat) (x : E),
+    (arr (pq_ s) <> [] -> tout_ (t_popleft s k x) <> TRaise ->
+       exists o s', pos_popleft HPV s = Some (o, s') /\
+                    t_popleft s k x = mkT (foreign_append s' x) (TOk o)) /\
+    (arr (pq_ s) = [] -> t_popleft s k x = mkT (foreign_append s x) TRaise) /\
+    (forall o p, tout_ (t_append s o p k x) <> TRaise ->
+       t_append s o p k x = mkT (foreign_append (pos_append_pri HPV s o p) x) TNone) /\
+    (forall o, tout_ (t_find_remove s o k x) <> TRaise ->
+       t_find_remove s o k x = match pos_find HPV s (Z.eqb o) true with
+                               | None => mkT (foreign_append s x) TNone
+                               | Some (o', s') => mkT (foreign_append s' x) (TOk o')
+                               end) /\
+    (forall o p, tout_ (t_reschedule s o p k x) <> TRaise ->
+       t_reschedule s o p k x = match pos_reschedule HPV s (Z.eqb o) p with
+                                | None => mkT (foreign_append s x) TNone
+                                | Some (o', s') => mkT (foreign_append s' x) (TOk o')
+                                end).
+Proof. exact t_ops_atomic. Qed.
+Print Assumptions C18_atomic_ok.
+
+(* the same for popleft / append, with the hypothesis on the C function's final state: it ended
+   with some budget left (k was at least the number of comparisons it performed), which is
+   equivalent to "no error flag" *)
+Theorem C18_atomic_ok_budget :
+  forall (s : pos) (k : nat) (x : E),
+    (forall k', cbudget (fst (c_heappop (start s k x))) = Some k' ->
+       t_popleft s k x = match pos_popleft HPV s with
+                         | None => mkT (foreign_append s x) TRaise
+                         | Some (o, s') => mkT (foreign_append s' x) (TOk o)
+                         end) /\
+    (forall o p k',
+       cbudget (c_heappush (start s k x) (mkE (mkPV p (n_ins s) 0 1) (seqn (pq_ s)) o)) = Some k' ->
+       t_append s o p k x = mkT (foreign_append (pos_append_pri HPV s o p) x) TNone) /\
+    (cerr (fst (c_heappop (start s k x))) = false <->
+       exists k', cbudget (fst (c_heappop (start s k x))) = Some k').
+Proof. exact t_atomic_budget. Qed.
+Print Assumptions C18_atomic_ok_budget.
+
+(* so the C17 invariant (heap, distinct sequence numbers below _sequence, boosting off,
+   classes well-formed) still holds afterwards *)
+Theorem C18_atomic_inv :
+  forall (s : pos) (k : nat) (x : E), PInv HPV s ->
+    (tout_ (t_popleft s k x) <> TRaise \/ arr (pq_ s) = [] -> PInv HPV (tq (t_popleft s k x))) /\
+    (forall o p, tout_ (t_append s o p k x) <> TRaise -> PInv HPV (tq (t_append s o p k x))) /\
+    (forall o, tout_ (t_find_remove s o k x) <> TRaise -> PInv HPV (tq (t_find_remove s o k x))) /\
+    (forall o p, tout_ (t_reschedule s o p k x) <> TRaise -> PInv HPV (tq (t_reschedule s o p k x))).
+Proof. exact t_ops_atomic_inv. Qed.
+Print Assumptions C18_atomic_inv.
+
+(* whole runs.  A history is a list of (loop-thread operation, k, foreign entry): every
+   operation is accompanied by one foreign append that would strike during comparison k.
+   [t_run] executes it on the step-level model, [seq_run] executes "operation of PosPQ, then
+   pos_append_pri of the foreign entry" on the C17 model.  If every foreign append falls
+   BETWEEN operations ([all_between]: no operation raises, except popleft's IndexError on an
+   empty queue) the two runs coincide - states and every returned value - and the invariant is
+   kept: such a run IS a sequential history of the C17 model, to which C17's theorems (exactly
+   once, priority order, heap intact) apply. *)
+Theorem C18_atomic_history :
+  forall (h : list (lop * nat * E)) (s : pos),
+    all_between s h ->
+    t_run s h = seq_run s h /\ (PInv HPV s -> PInv HPV (fst (t_run s h))).
+Proof. exact t_run_sequential. Qed.
+Print Assumptions C18_atomic_history.
+
+(* "does not strike" in terms of k itself.  [lop] = LPop | LApp o p | LFindRemove o | LResched o p;
+   [t_op s op k x] the corresponding t_* operation, [seq_op s op] the PosPQ operation (new state,
+   outcome), [between s op k x] := the operation did not raise, or it is popleft on an empty
+   queue.  Every operation has a number of comparisons n, depending only on the queue and
+   the operation: a foreign append scheduled for comparison k >= n happens after it and the
+   result is the sequential composition; one scheduled for k < n strikes and the operation
+   raises RuntimeError. *)
+Theorem C18_strike_threshold :
+  forall (s : pos) (op : lop), exists n : nat, forall (k : nat) (x : E),
+    ((n <= k)%nat ->
+       t_op s op k x = mkT (foreign_append (fst (seq_op s op)) x) (snd (seq_op s op))) /\
+    ((k < n)%nat -> tout_ (t_op s op k x) = TRaise /\ ~ between s op k x).
+Proof. exact atomic_when_budget_suffices. Qed.
+Print Assumptions C18_strike_threshold.
+
+(* ---- 3. the scheduling loops (stock deque as ready queue).  TRUSTED: each deque operation
+   is one C call under the GIL, so an interleaving is a list of atomic events
+   (Foreign x | LoopPop | LoopAppend y | LoopInsert k y | LoopRemove i) applied to a list by
+   [drun] from the empty queue; [submitted evs] lists all submissions in order (foreign ones
+   tagged Fo, loop-thread ones Lo), [foreigns evs] the foreign ones.  For EVERY interleaving:
+   popped + removed + still queued = submitted, as multisets (nothing lost or duplicated; with
+   distinct submissions each is popped at most once), and the foreign entries executed or
+   still queued appear in arrival order ([subseq] = order-preserving sub-list; all of them
+   when the loop thread removed none). ---- *)
+Theorem C18_deque_loops :
+  forall evs : list dev,
+    let s := drun evs (mkD [] [] []) in
+    Permutation (dpopped s ++ dremoved s ++ dq s) (submitted evs) /\
+    (NoDup (submitted evs) -> NoDup (dpopped s ++ dremoved s ++ dq s)) /\
+    subseq (filter is_foreign (dpopped s ++ dq s)) (map Fo (foreigns evs)) /\
+    (filter is_foreign (dremoved s) = [] ->
+       filter is_foreign (dpopped s ++ dq s) = map Fo (foreigns evs)).
+Proof. exact deque_loops. Qed.
+Print Assumptions C18_deque_loops.
+
+(* ---- 4. the known finding, characterised for ALL queues satisfying the C17 invariant.
+   popleft on >= 3 entries performs at least one comparison; a foreign append during
+   comparison 0 makes it raise, and the array afterwards is the foreign entry plus everything
+   EXCEPT the head: the entry being popped is gone (it was already overwritten when sifting
+   started, and the error path drops it).  append on a non-empty queue, struck: raises, both
+   the new and the foreign entry are in the array, but _sequence advanced only once - when the
+   foreign thread read the same _sequence the two share their sequence number. ---- *)
+Theorem C18_strike_always_raises :
+  forall (s : pos) (x : E), PInv HPV s ->
+    ((3 <= length (arr (pq_ s)))%nat ->
+       let r := t_popleft s 0 x in
+       tout_ r = TRaise /\
+       Permutation (arr (pq_ (tq r))) (x :: tl (arr (pq_ s))) /\
+       (~ In x (arr (pq_ s)) -> ~ In (hd ed (arr (pq_ s))) (arr (pq_ (tq r))))) /\
+    (forall o p, (1 <= length (arr (pq_ s)))%nat ->
+       let e := mkE (mkPV p (n_ins s) 0 1) (seqn (pq_ s)) o in
+       let r := t_append s o p 0 x in
+       tout_ r = TRaise /\
+       Permutation (arr (pq_ (tq r))) (x :: e :: arr (pq_ s)) /\
+       seqn (pq_ (tq r)) = seqn (pq_ s) + 1 /\
+       (eseq x = seqn (pq_ s) -> x <> e -> ~ NoDup (map eseq (arr (pq_ (tq r)))))).
+Proof. exact strike_always_raises. Qed.
+Print Assumptions C18_strike_always_raises.
+
+(* the same whatever the comparison k during which the strike happens (cerr = true: the C
+   function was struck), for all four operations.  find+remove and reschedule lose nothing
+   (the array is the intended content plus the foreign entry) but raise, and their heapify is
+   abandoned half-way (see witness (d) below). *)
+Theorem C18_strike_any_comparison :
+  forall (s : pos) (k : nat) (x : E), Qeq_bool (factor s) 0 = true ->
+    (cerr (fst (c_heappop (start s k x))) = true ->
+       let r := t_popleft s k x in
+       tout_ r = TRaise /\ Permutation (arr (pq_ (tq r))) (x :: tl (arr (pq_ s))) /\
+       seqn (pq_ (tq r)) = seqn (pq_ s) + 1) /\
+    (forall o p,
+       let e := mkE (mkPV p (n_ins s) 0 1) (seqn (pq_ s)) o in
+       cerr (c_heappush (start s k x) e) = true ->
+       let r := t_append s o p k x in
+       tout_ r = TRaise /\ Permutation (arr (pq_ (tq r))) (x :: e :: arr (pq_ s)) /\
+       seqn (pq_ (tq r)) = seqn (pq_ s) + 1) /\
+    (forall o,
+       let r := t_find_remove s o k x in
+       tout_ r = TRaise ->
+       exists i, find_last_index (Z.eqb o) (arr (pq_ s)) = Some i /\
+                 Permutation (nth i (arr (pq_ s)) ed :: arr (pq_ (tq r))) (x :: arr (pq_ s)) /\
+                 seqn (pq_ (tq r)) = seqn (pq_ s) + 1) /\
+    (forall o p,
+       let r := t_reschedule s o p k x in
+       tout_ r = TRaise ->
+       exists i, find_last_index (Z.eqb o) (arr (pq_ s)) = Some i /\
+                 let e := nth i (arr (pq_ s)) ed in
+                 Permutation (arr (pq_ (tq r)))
+                   (x :: set_nth (arr (pq_ s)) i (mkE (mkPV p (n_ins s) 0 1) (eseq e) (eobj e))) /\
+                 seqn (pq_ (tq r)) = seqn (pq_ s) + 1).
+Proof. exact strike_any_comparison. Qed.
+Print Assumptions C18_strike_any_comparison.
+
+(* iteration struck (list.sort() empties the list while it sorts; Threads.v models the strike
+   as unconditional): ValueError("list modified during sort") escapes, the queue is the
+   sorted old content - the FOREIGN entry is discarded (its callback is never run) although
+   the foreign thread's `_sequence += 1` took effect *)
+Theorem C18_iter_struck :
+  forall s : pos, Qeq_bool (factor s) 0 = true ->
+    let r := t_iter_struck s in
+    tout_ r = TRaise /\
+    arr (pq_ (tq r)) = stable_sort HPV (arr (pq_ s)) /\
+    seqn (pq_ (tq r)) = seqn (pq_ s) + 1.
+Proof. exact t_iter_struck_spec. Qed.
+Print Assumptions C18_iter_struck.
+
+(* ---- 5. C18 is false for the priority loop on the unchanged code (known finding F13).
+   Witnesses on queues built by plain appends (objects 1..n, priority 0), foreign object 200
+   with priority 0, strike during comparison 0:
+   (a)+(b) popleft raises AND the entry being popped (object 1) is lost;
+   (c) append of object 100 raises and leaves objects 100 and 200 with the SAME sequence number;
+   (d) reschedule(1, priority 1) raises and leaves a non-heap: the entry at index 1 is smaller
+       than its parent at index 0, so object 1 (priority 1) would be popped before the
+       priority-0 entries. ---- *)
 Definition w_pre : list (Z * Q) := [(1, 0%Q); (2, 0%Q); (3, 0%Q)].
+Definition w_pre4 : list (Z * Q) := [(1, 0%Q); (2, 0%Q); (3, 0%Q); (4, 0%Q)].
 Theorem C18_refuted :
-  let s := prefill w_pre in
-  let x := foreign_entry s 200 0%Q in
-  let r := t_popleft s 0%nat x in
-  tout_ r = TRaise /\ map (@eobj pv) (arr (pq_ (tq r))) = [2; 3; 200].
-Proof. vm_compute. split; reflexivity. Qed.
+  (let s := prefill w_pre in
+   let x := foreign_entry s 200 0%Q in
+   let r := t_popleft s 0%nat x in
+   tout_ r = TRaise /\ map (@eobj pv) (arr (pq_ (tq r))) = [2; 3; 200]) /\
+  (let s := prefill w_pre in
+   let x := foreign_entry s 200 0%Q in
+   let r := t_append s 100 0%Q 0%nat x in
+   tout_ r = TRaise /\
+   map (fun e => (eobj e, eseq e)) (arr (pq_ (tq r))) = [(1, 0); (2, 1); (3, 2); (100, 3); (200, 3)] /\
+   seqn (pq_ (tq r)) = 4) /\
+  (let s := prefill w_pre4 in
+   let x := foreign_entry s 200 0%Q in
+   let r := t_reschedule s 1 1%Q 0%nat x in
+   let a := arr (pq_ (tq r)) in
+   tout_ r = TRaise /\
+   map (fun e => (eobj e, base (epri e))) a = [(1, 1%Q); (4, 0%Q); (3, 0%Q); (2, 0%Q); (200, 0%Q)] /\
+   elt (nth 1 a ed) (nth 0 a ed) = true).
+Proof. vm_compute. repeat split; reflexivity. Qed.
 Print Assumptions C18_refuted.
+
+(* the hypotheses of 2. and 4. are satisfiable: every queue built by appends satisfies PInv, and
+   on the witness queue budget 5 falls between operations while budget 0 strikes *)
+Example C18_hyps_satisfiable :
+  (forall l, PInv HPV (prefill l)) /\
+  (let s := prefill w_pre in
+   let x := foreign_entry s 200 0%Q in
+   (3 <= length (arr (pq_ s)))%nat /\
+   tout_ (t_popleft s 5%nat x) = TOk 1 /\ tout_ (t_popleft s 0%nat x) = TRaise).
+Proof. split; [exact prefill_inv | vm_compute; repeat split; lia]. Qed.
